@@ -78,6 +78,12 @@ CHECKS.update({
         note='Trusted: symnp engine (abs/max merged into if-then-else), z3. Outside: accelerated PDHG / proximal gradient (unexposed state), randomised orders, rounding.',
         ref='DESIGN.md section 4 C11'),
 })
+CHECKS.update({
+    'C12': dict(
+        text='Bounded reformulations decided for all start points / data / solutions: Landweber residual non-increasing for symbolic admissible omega; Kaczmarz sweep (fixed and random order, per-operator relaxation) does not increase the distance to a symbolic solution of a consistent system; CG energy error and CGN residual non-increasing per step (CG exact after dim steps: thorough tier); steepest descent with BacktrackingLineSearch does not increase a quadratic objective; power_method_opnorm estimate^2 <= lambda_max(A^T A); a symbolic KKT point is reproduced exactly (fixed point) by pdhg (plain and accelerated), proximal_gradient and accelerated_proximal_gradient; proximal gradient is Fejer monotone; douglas_rachford_pd and forward_backward_pd (internal dual state) equal a non-optimised restatement of the documented iteration for 1-3 operators with equal ranges.',
+        note='Trusted: symnp engine, z3; dyadic 2x2 operators, 1-2 iterations. The property clause "drive the iterate towards optimality" (a limit) is outside: only fixed points and one-step monotonicity are decided. One known finding (forward_backward_pd relaxation aliased).',
+        ref='DESIGN.md section 4 C12'),
+})
 NOT_YET = {}
 
 
